@@ -9,6 +9,12 @@
 (*                                 closure ran; known = GetRoundByName     *)
 (*                                 found it; gated = which formula the     *)
 (*                                 real stakepool.getRandPools used        *)
+(*          ctx                    ctx = "same": looked up in the state    *)
+(*                                 context of the previous probe (one      *)
+(*                                 transaction), "new": a new transaction  *)
+(*  Cold                           the block is sealed, the node restarts: *)
+(*                                 the following block runs on an empty    *)
+(*                                 state cache (recorded forks persist)    *)
 (* Rounds are logged relative to the trace's base round.                   *)
 (* Tracked: fork = what the accepted Record events recorded.               *)
 (***************************************************************************)
@@ -22,8 +28,9 @@ TraceReset == IsEvent("Reset") /\ ev' = Null /\ fork' = <<>>
 TraceRecord == /\ IsEvent("Record") /\ ev' = Trace[l]
                /\ fork' = IF Trace[l].res = "ok" THEN Put(fork, Trace[l].name, Trace[l].round) ELSE fork
 TraceProbe == IsEvent("Probe") /\ ev' = Trace[l] /\ UNCHANGED fork
-TraceSkip == l <= Len(Trace) /\ Trace[l].ev \notin {"Reset", "Record", "Probe"} /\ l' = l + 1 /\ ev' = Null /\ UNCHANGED fork
-TraceNext == TraceReset \/ TraceRecord \/ TraceProbe \/ TraceSkip
+TraceCold == IsEvent("Cold") /\ ev' = Trace[l] /\ UNCHANGED fork
+TraceSkip == l <= Len(Trace) /\ Trace[l].ev \notin {"Reset", "Record", "Probe", "Cold"} /\ l' = l + 1 /\ ev' = Null /\ UNCHANGED fork
+TraceNext == TraceReset \/ TraceRecord \/ TraceProbe \/ TraceCold \/ TraceSkip
 TraceSpec == TraceInit /\ [][TraceNext]_vars
 
 IsProbe == ev.ev = "Probe"
